@@ -68,6 +68,10 @@ pub struct CutCase {
     pub cut: usize,
     pub serve: bool,
     pub rwlock: bool,
+    /// the peer only shuts down its sending direction and keeps reading: it must observe end-of-stream once the daemon
+    /// has stopped serving (before anybody calls wait())
+    #[serde(default)]
+    pub half_close: bool,
 }
 
 const BOUND: Duration = Duration::from_secs(10);
@@ -429,6 +433,11 @@ fn run_cut_generic<V: VringT<GM> + Clone + Send + Sync + 'static>(ctx: &mut Ctx,
             if cut > 0 {
                 rawpeer::send_all(peer.as_raw_fd(), &msg[..cut], &[]).map_err(|e| e.to_string())?;
             }
+            if c.half_close {
+                let _ = peer.shutdown(std::net::Shutdown::Write);
+                ctx.class("peer_half_close");
+                peer_sees_eof(&peer).map_err(|e| format!("peer shut down its sending side after {cut} of {} request bytes and keeps reading: {e}", msg.len()))?;
+            }
             drop(peer);
             let mut d = fx.daemon.take().unwrap();
             let (d, r) = bounded("wait() after the peer closed", move || {
@@ -618,7 +627,10 @@ pub fn run(ctx: &mut Ctx) {
                 if serve && ctx.tier == crate::engine::Tier::Quick && ci >= 3 {
                     continue;
                 }
-                cuts.push(CutCase { code: *code, cut, serve, rwlock: (cut + ci) % 2 == 0 });
+                cuts.push(CutCase { code: *code, cut, serve, rwlock: (cut + ci) % 2 == 0, half_close: false });
+                if !serve {
+                    cuts.push(CutCase { code: *code, cut, serve, rwlock: (cut + ci) % 2 == 1, half_close: true });
+                }
             }
         }
     }
